@@ -226,11 +226,13 @@ func hasReturn(n ast.Node) bool {
 
 type orderFacts struct {
 	hdrOnClose, lateSetH, ctxErr, sendDone, closeErrFirst bool
-	problems                                                 []string
+	sendhDone, misuse                                     bool
+	problems                                              []string
 }
 
 func wrapOrderFacts() (orderFacts, error) {
 	var of orderFacts
+	closeLatches, sendLatches := false, false // Close / server SendMsg call sendHeaderIfNeeded at all
 	fset := token.NewFileSet()
 	f, err := parser.ParseFile(fset, filepath.Join(repoDir(), "pkg/wrap/stream.go"), nil, 0)
 	if err != nil {
@@ -249,6 +251,7 @@ func wrapOrderFacts() (orderFacts, error) {
 			is, ok := st.(*ast.IfStmt)
 			return ok && mentions(is.Cond, "ctx.Err()") && mentions(is.Body, "sendHeaderIfNeeded")
 		}) >= 0
+		closeLatches = mentions(fd.Body, "sendHeaderIfNeeded")
 		// closeErr is assigned before anything is closed
 		iErr := firstStmt(fd, func(st ast.Stmt) bool {
 			as, ok := st.(*ast.AssignStmt)
@@ -281,6 +284,57 @@ func wrapOrderFacts() (orderFacts, error) {
 		})
 		iLatch := firstStmt(fd, func(st ast.Stmt) bool { return mentions(st, "sendHeaderIfNeeded") })
 		of.sendDone = iChk >= 0 && iLatch > iChk
+		sendLatches = iLatch >= 0
+	}
+	if fd := need("serverStream.SendHeader"); fd != nil {
+		// fx_sendh_done: the context is looked at (and the call left) before the latch is touched
+		iChk := firstStmt(fd, func(st ast.Stmt) bool {
+			is, ok := st.(*ast.IfStmt)
+			return ok && mentions(is.Cond, "ctx.Err()") && hasReturn(is.Body)
+		})
+		iLatch := firstStmt(fd, func(st ast.Stmt) bool { return mentions(st, "headerC") || mentions(st, "metadata.Join") })
+		of.sendhDone = iChk >= 0 && iLatch > iChk
+	}
+	// fx_misuse: CloseSend closes clientSend only inside an if (on a flag), and the client's SendMsg tests the
+	// same flag and leaves before it touches the channel
+	flagOf := func(is *ast.IfStmt) string {
+		flag := ""
+		ast.Inspect(is.Cond, func(m ast.Node) bool {
+			if s, ok := m.(*ast.SelectorExpr); ok && flag == "" {
+				if x, ok := s.X.(*ast.Ident); ok && x.Name == "c" {
+					flag = s.Sel.Name
+				}
+			}
+			return true
+		})
+		return flag
+	}
+	closeFlag, sendFlag := "", ""
+	if fd := need("clientStream.CloseSend"); fd != nil {
+		bare := firstStmt(fd, func(st ast.Stmt) bool {
+			es, ok := st.(*ast.ExprStmt)
+			return ok && callTo(es.X) == "close"
+		})
+		for _, st := range fd.Body.List {
+			if is, ok := st.(*ast.IfStmt); ok && mentions(is.Body, "close(c.clientSend)") && bare < 0 {
+				closeFlag = flagOf(is)
+			}
+		}
+	}
+	if fd := need("clientStream.SendMsg"); fd != nil {
+		iChan := firstStmt(fd, func(st ast.Stmt) bool { return mentions(st, "clientSend") })
+		for i, st := range fd.Body.List {
+			if is, ok := st.(*ast.IfStmt); ok && hasReturn(is.Body) && (iChan < 0 || i < iChan) && sendFlag == "" {
+				sendFlag = flagOf(is)
+			}
+		}
+	}
+	of.misuse = closeFlag != "" && closeFlag == sendFlag
+	// SendHeader itself refusing to publish on a finished call makes the outer tests of the context in Close and
+	// in the server's SendMsg redundant (StreamProofs.sendh_done_subsumes): a tree without them behaves the same
+	if of.sendhDone {
+		of.hdrOnClose = of.hdrOnClose || closeLatches
+		of.sendDone = of.sendDone || sendLatches
 	}
 	return of, nil
 }
@@ -344,8 +398,9 @@ func translateWrapSites(outDir string) error {
 	}
 	b.WriteString("\n(* the repairs of stream.go as facts read off the source: Close latches pending headers under a test of\n")
 	b.WriteString("   the context; SetHeader tests the latch before it joins; doneErr can return ctx.Err(); server SendMsg\n")
-	b.WriteString("   leaves on a finished context before it latches the headers *)\n")
-	fmt.Fprintf(&b, "Definition wrap_fixes : fixes := mkFx %v %v %v %v.\n", of.hdrOnClose, of.lateSetH, of.ctxErr, of.sendDone)
+	b.WriteString("   leaves on a finished context before it latches the headers; so does SendHeader; the client's CloseSend\n")
+	b.WriteString("   closes clientSend under a flag that its SendMsg tests before touching the channel *)\n")
+	fmt.Fprintf(&b, "Definition wrap_fixes : fixes := mkFx %v %v %v %v %v %v.\n", of.hdrOnClose, of.lateSetH, of.ctxErr, of.sendDone, of.sendhDone, of.misuse)
 	fmt.Fprintf(&b, "(* Close assigns closeErr before it closes closedC / serverSend / the context *)\nDefinition wrap_close_err_first : bool := %v.\n", of.closeErrFirst)
 	fmt.Fprintf(&b, "Definition wrap_order_problems : list string := [%s]%%string.\n", func() string {
 		q := make([]string, len(of.problems))
